@@ -11,6 +11,7 @@ import ast
 import builtins as _builtins
 import operator
 
+from . import extsig
 from .model import AnalysisError, FuncInfo, ClassInfo, _local_names
 from .terms import (T, const, cval, is_const, NONE, TRUE, FALSE, sym, ext,
                     unknown, ite, tup, lst, UNBOUND, walk, show)
@@ -533,14 +534,34 @@ class Evaluator:
         else:
           elts = [T('star', self.elem_of(a), a)]
       if star_dom is not None:
-        guards = tuple(c for c in self.path[self._loop_path_base():] if c.op != 'inloop')
-        elts = [T('star', (e.args[0] if e.op == 'star' else e),
-                  T('loopdom', star_dom[0], star_dom[1], guards, (e.args[1] if e.op == 'star' else NONE))) for e in elts]
+        # every enclosing abstract loop in which this list is being built (it carries that loop's
+        # accumulator marker) contributes one level of the iteration domain, outermost first
+        marked = {e.args[0].args[0] for e in cur.args if e.op == 'star' and e.args[0].op == 'loopacc'}
+        levels = [(lid, it) for (lid, it) in self.loop_stack[:-1] if lid in marked] + [star_dom]
+        segs = self._loop_guard_segments()
+
+        def wrap(e):
+          dom = e.args[1] if e.op == 'star' else NONE
+          for lid, it in reversed(levels):
+            dom = T('loopdom', lid, it, segs.get(lid, ()), dom)
+          return T('star', (e.args[0] if e.op == 'star' else e), dom)
+        elts = [wrap(e) for e in elts]
       new = T('list', *(cur.args + tuple(elts)))
     else:
       new = T('mut', cur, meth, tuple(args), self.new_id('m'))
     self.assign(tgt, new, scope, quiet=True)
     return True
+
+  def _loop_guard_segments(self):
+    """lid -> path conditions met between that loop's entry and the next nested loop's entry."""
+    segs, cur = {}, None
+    for c in self.path:
+      if c.op == 'inloop':
+        cur = c.args[0]
+        segs[cur] = ()
+      elif cur is not None:
+        segs[cur] = segs[cur] + (c,)
+    return segs
 
   def _loop_path_base(self):
     # index in self.path of the innermost enclosing 'inloop' marker
@@ -1196,6 +1217,7 @@ class Evaluator:
           order.append(k)
       return T('rec', rec.args[0], tuple((k, fields[k]) for k in order))
     if op == 'ext':
+      args, kwargs = extsig.canonical(f.args[0], args, kwargs)
       r = self.call_ext(f.args[0], args, kwargs, n, scope)
       if r is not None:
         return r
